@@ -10,6 +10,8 @@ EXTENDS TRCOps, TLC, Json
 
 CONSTANTS Depth, DeepIds, BaseIds,   \* as in TRCPayload
           KindIds,                   \* signer info kinds (indices into AllKinds) used by the "si" deviation
+          FinalKindIds,              \* further kinds applied to the accepted updates themselves only (the case
+                                     \* is not deviated further): one representative of every forgery in quick
           QuorumLowerBound, EmitScenarios
 
 C(cls, subj, sn, ver) ==
@@ -54,7 +56,8 @@ Devs ==
     [k : {"vadd"}, a : -1..5, b : {0}] \cup
     [k : {"vdrop"}, a : {0}, b : {0}] \cup
     [k : {"vset"}, a : 1..3, b : 0..5] \cup
-    [k : {"si"}, a : 1..NPool, b : KindIds]
+    [k : {"si"}, a : 1..NPool, b : KindIds] \cup
+    [k : {"sifinal"}, a : 1..NPool, b : FinalKindIds]
 
 IdSeq == <<(<<1, 1, 4>>), <<1, 1, 5>>, <<1, 1, 3>>, <<1, 1, 1>>, <<2, 1, 4>>, <<1, 2, 4>>, <<1, 4, 4>>>>
 CoreSeq == <<(<<1, 2>>), <<2, 1>>, <<1>>>>
@@ -78,6 +81,7 @@ Apply(c, m) ==
       [] m.k = "vdrop" -> IF Len(c.votes) > 0 THEN [c EXCEPT !.votes = SubSeq(@, 1, Len(@) - 1)] ELSE c
       [] m.k = "vset" -> IF m.a <= Len(c.votes) THEN [c EXCEPT !.votes[m.a] = m.b] ELSE c
       [] m.k = "si" -> [c EXCEPT !.sk[m.a] = AllKinds[m.b]]
+      [] m.k = "sifinal" -> [c EXCEPT !.sk[m.a] = AllKinds[m.b]]
 
 \* expansion into the form TRCOps talks about
 Certs(ix) == [i \in 1..Len(ix) |-> CertPool[ix[i]]]
@@ -97,8 +101,12 @@ VARIABLES cs, depth, maxd
 vars == <<cs, depth, maxd>>
 Init == \E b \in BaseIds : cs = Bases[b] /\ depth = 0 /\ maxd = IF b \in DeepIds THEN Depth ELSE 1
 Next == /\ depth < maxd
-        /\ \E m \in Devs : cs' = Apply(cs, m) /\ cs' # cs
-        /\ depth' = depth + 1 /\ UNCHANGED maxd
+        /\ \E m \in Devs :
+              /\ cs' = Apply(cs, m)
+              /\ cs' # cs
+              /\ (m.k = "sifinal" => depth = 0)
+              /\ depth' = IF m.k = "sifinal" THEN maxd ELSE depth + 1
+        /\ UNCHANGED maxd
 Spec == Init /\ [][Next]_vars
 View == <<cs, maxd>>
 
